@@ -110,7 +110,15 @@ func c13Case(c *lib.Ctx, idx uint64) {
 			c.Violation(b, "Decode returned no File with the error although %d records were complete before the undefined local type", ex.FailAt)
 			return
 		}
-		if diffs := lib.CompareContent(ex.Content, got, lib.CompareOpts{Skip: skip}); len(diffs) > 0 {
+		if ex.FailAt < 2 {
+			// not even the leading file_id record was complete: what the File's file_id looks
+			// like then is not the property's subject; no message may be held
+			if !slotsEmpty(got) {
+				c.Violation(b, "the File returned with the error holds messages although the first data record already named an undefined local type")
+				return
+			}
+			c.Count("undefined_slot_in_first_data_record", 1)
+		} else if diffs := lib.CompareContent(ex.Content, got, lib.CompareOpts{Skip: skip}); len(diffs) > 0 {
 			c.Violation(b, "partial File before the undefined-slot record differs: %s", lib.DiffsString(diffs, 4))
 			return
 		}
